@@ -12,7 +12,7 @@ class BackwardScanner:
         return self.text[self.pos - 1] if 0 < self.pos <= len(self.text) else ''
 
     def cur(self):
-        return self.text[self.pos] if self.pos < len(self.text) else ''
+        return self.text[self.pos] if 0 <= self.pos < len(self.text) else ''
 
 
 def extract(text: str, pos=None, options: dict=None) -> tuple:
